@@ -117,9 +117,10 @@ structure GoInv (pg : PUG U) (st : FragSt U) (L : List (Lay U)) : Prop where
   spKeys : ∀ X, X ∈ AList.keys st.startProbs ↔ ∃ l ∈ L, l.sp = X
   spVal : ∀ l ∈ L, AList.lookup l.sp st.startProbs = some (spMass L l.sp)
   spTot : (st.startProbs.map (·.2)).sum = (L.map (·.n.prob)).sum
+  disj : L.Pairwise (fun a b => a.hi ≤ b.lo)
 
 theorem goInv_init (pg : PUG U) : GoInv pg ⟨0, [], [], [], [], []⟩ [] := by
-  refine ⟨?_, ?_, ?_, ?_, ?_, ?_, ?_, ?_, ?_, ?_, ?_, ?_, ?_⟩ <;> simp [AList.keys]
+  refine ⟨?_, ?_, ?_, ?_, ?_, ?_, ?_, ?_, ?_, ?_, ?_, ?_, ?_, ?_⟩ <;> simp [AList.keys]
 
 theorem mem_keys_insert {κ ν : Type} [DecidableEq κ] (k : κ) (v : ν) (x : κ) : ∀ (d : AList κ ν),
     x ∈ AList.keys (AList.insert k v d) ↔ x = k ∨ x ∈ AList.keys d
